@@ -33,3 +33,30 @@ NOTES = ('All checks are `./check <id> quick|thorough`; exit 0 = held on everyth
          '/verif/replays, exit 2 = harness fault (never reported as success). VERIF_SEED selects the seed family. '
          'Every run executes in a fresh fork of a zygote that imported /repo\'s working tree, so checks always '
          'rebuild from the current tree; there is nothing to compile.')
+
+TEXT.update({
+    'C04': {
+        'level': 'Reference attribute store against all 441 element classes in turn: declared/undeclared names (other types\' attributes, misspellings, Python-side reserved names), certainly-valid and certainly-invalid exemplar values, set / overwrite / remove sequences through constructor keyword and dot assignment, interleaved with to_string(); output attributes compared in expanded-name form. The thorough tier offers every declared (element, attribute) pair; coverage of pairs is measured and reported.',
+        'ref': 'DESIGN.md section 6 C04', 'note': _NOTE_COMMON + ' Values of uncertain status are never used.', 'technique': _TECH_HIST + '; reference attribute store'},
+    'C10': {
+        'level': 'Fault sequences: histories with a high rate of calls the library itself rejects (wrong child, maxOccurs, excluded choice, bad value/attribute, forward add, not-a-child, incomplete serialise), placed inside states with in-flight structure. Oracle: cheap before/after snapshot around every failing call, and an erasure twin - the same history with every failed call deleted, re-executed in a pristine fork - that must give identical outcomes for all surviving operations and identical forked observations (serialisation or missing-children verdict, acceptance vector).',
+        'ref': 'DESIGN.md section 6 C10', 'note': _NOTE_COMMON, 'technique': 'deterministic simulation with fault injection (library-rejected calls as faults) + erasure twin in a pristine fork'},
+    'C11': {
+        'level': 'Histories with removals at any position; after every successful removal the live element and a rebuilt twin (fresh element + clones of the remaining children in the same relative order) are observed in nested forks: required-children verdict, serialisation, acceptance of each symbol.',
+        'ref': 'DESIGN.md section 6 C11', 'note': _NOTE_COMMON, 'technique': _TECH_HIST + '; rebuild twin observed in nested forks'},
+    'C13': {
+        'level': '2-4 interleaved clients (seeded cooperative scheduler, one op = one step) on independent documents of the same and of different classes, incl. copies, failing calls, serialisations, an optional warm-up program, and a fixed canary built last. Oracles: every other document\'s cheap observation unchanged across each step; projection twin - each document\'s lineage alone in a pristine fork gives identical outcomes and forked observations; canary equals its pristine result.',
+        'ref': 'DESIGN.md section 6 C13', 'note': _NOTE_COMMON, 'technique': 'deterministic simulation: seeded interleaving of client programs on shared process state + projection twins in pristine forks'},
+    'C14': {
+        'level': 'deepcopy at arbitrary points of histories (attributes by keyword and by dot, removed attributes, changed values, unchecked nodes, subtrees), then two owners mutate original and copy interleaved. Oracles at the copy (same serialisation or same failure type, original unchanged; observed in nested forks) and projection twins for both lineages afterwards.',
+        'ref': 'DESIGN.md section 6 C14', 'note': _NOTE_COMMON, 'technique': 'deterministic simulation: two interleaved owners + projection twins; forked observation at the copy point'},
+    'C15': {
+        'level': 'One abstract program rendered on the explicit API and on the shortcut syntax on twin documents (atomic PAIR steps so that minimisation cannot desynchronise the surfaces): same rejection, same resulting element after every step, same serialisation; dot reads judged against the shadow and the model. Names biased to translation hazards.',
+        'ref': 'DESIGN.md section 6 C15', 'note': _NOTE_COMMON, 'technique': _TECH_HIST + '; other-surface twin'},
+    'C16': {
+        'level': 'A mutator and a reader task share one tree under the seeded scheduler; the reader interposes to_string (whole tree / subtrees, ic on/off, twice in a row), final checks and all public reads between the mutator\'s operations. Text and attribute values from the XML Char range (markup, quotes, ]]>, control whitespace, NBSP, non-BMP). Oracles: well-formedness and exact string recovery, repeat equality, subtree infoset equality, and an erasure twin without the reads.',
+        'ref': 'DESIGN.md section 6 C16', 'note': _NOTE_COMMON, 'technique': 'deterministic simulation: reader task interleaved with mutator by a seeded scheduler + reader-erasure twin'},
+    'C18': {
+        'level': 'Trees mixing checked and unchecked nodes: any class/number/order of children on unchecked nodes must never raise and must serialise in insertion order; byte identity with a checked twin for schema-valid words the twin accepts in order; checked nodes nested under unchecked ones still reject what the model says is illegal.',
+        'ref': 'DESIGN.md section 6 C18', 'note': _NOTE_COMMON, 'technique': _TECH_HIST + '; checked/unchecked twin'},
+})
